@@ -260,7 +260,9 @@ def main():
         "checks": checks,
         "not_applicable": na,
         "notes": "Exit codes: 0 held within bounds; 1 replay-confirmed violation; 2 inconclusive / harness error "
-                 "(never reported as success). Known findings: known_findings.json.",
+                 "(never reported as success). Known findings: known_findings.json. C16 is claimed only for its "
+                 "nearest-neighbour half; the linear-regridding half is not applicable to solver-based checking "
+                 "(compiled scipy interpolators) and is not covered by any check.",
     }
     with open(os.path.join(ROOT, "MANIFEST.json"), "w") as f:
         json.dump(man, f, indent=1)
